@@ -20,6 +20,7 @@ pub mod stacks;
 pub mod c17;
 pub mod c18;
 pub mod c19;
+pub mod c20;
 
 use crate::engine::{self, Property, Tier};
 use std::path::Path;
@@ -116,6 +117,7 @@ pub fn dispatch(id: &str, tier: Tier, seed: u64, replay: Option<&str>) -> i32 {
         "C17" => run(&c17::C17, tier, seed, replay),
         "C18" => run(&c18::C18, tier, seed, replay),
         "C19" => run(&c19::C19, tier, seed, replay),
+        "C20" => run_unprivileged(&c20::C20, tier, seed, replay),
         _ => {
             eprintln!("unknown property id {}", id);
             2
